@@ -136,7 +136,7 @@ def r4(ctx, prog):
 def r5(ctx, prog):
     R = ctx.rule("C08.R5", "full pages come back: moving to the full queue is followed by a collect; a local free into a full page un-fulls it; mi_free's fast path excludes full pages")
     f = prog.fn("mi_page_to_full")
-    for c in f.calls("mi_page_queue_enqueue_from"):
+    for c in rl.calls_doing(prog, f, ("mi_page_queue_enqueue_from_ex",)):
         w = rl.followed_by(f, c, rl.call_to("_mi_page_free_collect")(f))
         ctx.check(R, w is None, f.where(c), "after the move to the full queue the page is collected (closes the race with a concurrent first remote free)", key="C08.R5:to_full", witness=w)
     g = prog.fn("mi_free_block_local")
@@ -157,7 +157,7 @@ def r5(ctx, prog):
     for c in m.calls("mi_free_block_local"):
         ctx.check(R, m.cv(rl.arg(m, c, 3)) == 1, m.where(c), "the generic local path checks for a full page", key="C08.R5:generic")
     u = prog.fn("_mi_page_unfull")
-    ctx.check(R, any(True for _ in u.calls("mi_page_queue_enqueue_from_full")) or any(True for _ in u.calls("mi_page_queue_enqueue_from")), u.where(),
+    ctx.check(R, bool(rl.calls_doing(prog, u, ("mi_page_queue_enqueue_from_ex",))), u.where(),
               "_mi_page_unfull moves the page back to its size queue", key="C08.R5:unfull:move")
     ctx.floor(R, 6)
 
